@@ -46,6 +46,12 @@ var c16Bad = []string{"zero-inputs", "two-inputs", "nil", "rank1", "rank3"}
 func (c16) Generate(r *sim.Rand, tier string) *sim.Scenario {
 	sc := &sim.Scenario{Cfg: map[string]float64{}, Data: map[string][]float64{}}
 	D, O := r.Range(1, 5), r.Range(1, 4)
+	if r.Bool(0.1) {
+		D = r.Range(6, 24)
+	}
+	if r.Bool(0.1) {
+		O = r.Range(5, 18)
+	}
 	sc.Cfg["D"], sc.Cfg["O"] = float64(D), float64(O)
 	sc.Cfg["rngseed"] = float64(r.Intn(1 << 30))
 	if r.Bool(0.2) {
@@ -66,6 +72,9 @@ func (c16) Generate(r *sim.Rand, tier string) *sim.Scenario {
 	max := 16
 	if tier == "thorough" {
 		max = 30
+	}
+	if r.Bool(0.1) {
+		max *= 3 // long histories
 	}
 	n := r.Range(2, max)
 	pSwap := []float64{0.1, 0.3, 0.5}[r.Intn(3)]
